@@ -9,6 +9,8 @@ import (
 	"os"
 	"sort"
 	"strings"
+	"sync"
+	"sync/atomic"
 	"testing"
 	"time"
 
@@ -26,6 +28,7 @@ import (
 var dbgNotify = os.Getenv("VERIF_DEBUG_NOTIFY") != ""
 
 type schedWorld struct {
+	hmu   sync.Mutex // harness bookkeeping below (threads run in parallel in the free-running -race pass)
 	w     *rw
 	root  string
 	errs  map[string]error // thread/op -> error of Receive
@@ -47,6 +50,8 @@ func newSchedWorld(files []*sFile) *schedWorld {
 	}
 	sw.inflight = map[string]map[uint64]bool{}
 	vrt.OnNotify = func(what, arg string) {
+		sw.hmu.Lock()
+		defer sw.hmu.Unlock()
 		if what == "canReceive" && arg == "false" {
 			sw.notReady = true // Recover has closed the gate
 		}
@@ -80,11 +85,17 @@ func (sw *schedWorld) ftime() time.Time { return time.Date(2010, 12, 31, 23, 0, 
 func (sw *schedWorld) recv(key string, p int, corrupt bool) {
 	f := sw.files[key]
 	me := vrt.Goid()
+	sw.hmu.Lock()
 	if sw.inflight[f.Name] == nil {
 		sw.inflight[f.Name] = map[uint64]bool{}
 	}
 	sw.inflight[f.Name][me] = true
-	defer delete(sw.inflight[f.Name], me)
+	sw.hmu.Unlock()
+	defer func() {
+		sw.hmu.Lock()
+		delete(sw.inflight[f.Name], me)
+		sw.hmu.Unlock()
+	}()
 	v := &version{Name: f.Name, Renamed: f.Renamed, Data: []byte(f.Data), Hash: f.hash(), Time: sw.ftime()}
 	vp := part(v, f.Prev, f.Cuts[p], f.Cuts[p+1])
 	data := append([]byte{}, []byte(f.Data)[vp.beg:vp.end]...)
@@ -96,7 +107,9 @@ func (sw *schedWorld) recv(key string, p int, corrupt bool) {
 		Parts: []*sts.ByteRange{{Beg: vp.beg, End: vp.end}}}
 	file.Time.Time = sw.ftime()
 	err := sw.w.st.Receive(file, bytes.NewReader(data))
+	sw.hmu.Lock()
 	sw.errs[fmt.Sprintf("%s.%d", key, p)] = err
+	sw.hmu.Unlock()
 }
 
 // finish: settle, collect, tear down. Returns final-directory content ("target md5") and log records.
@@ -412,14 +425,18 @@ func scenarioRecoveryWindow(bound int) *vh.SchedScenario {
 		files := []*sFile{{Key: "a1", Name: "a", Data: "AAAABBBB", Cuts: []int64{0, 4, 8}}}
 		sw := newSchedWorld(files)
 		sw.recv("a1", 0, false) // something for Recover to look at
-		done, raced := false, ""
-		x.Go("recover", func() { sw.w.st.Recover(); done = true })
+		var done atomic.Bool
+		raced := ""
+		x.Go("recover", func() { sw.w.st.Recover(); done.Store(true) })
 		x.Go("request", func() {
 			if !sw.w.st.Ready() {
 				return // answered 503
 			}
-			if !done {
-				raced = fmt.Sprintf("the readiness test let a request through while recovery had %s", map[bool]string{false: "not yet closed the gate (the stage is created ready, and `go Recover()` clears the flag only when it gets to run)", true: "closed the gate and not finished"}[sw.notReady])
+			if !done.Load() {
+				sw.hmu.Lock()
+				closed := sw.notReady
+				sw.hmu.Unlock()
+				raced = fmt.Sprintf("the readiness test let a request through while recovery had %s", map[bool]string{false: "not yet closed the gate (the stage is created ready, and `go Recover()` clears the flag only when it gets to run)", true: "closed the gate and not finished"}[closed])
 			}
 			sw.recv("a1", 1, false)
 		})
@@ -444,4 +461,22 @@ func scenarioRecoveryWindow(bound int) *vh.SchedScenario {
 func TestC15Sched(t *testing.T) {
 	runSchedScenarios(t, "C15", "request around the start of recovery (E-SCHED)", []*vh.SchedScenario{scenarioRecoveryWindow(2)},
 		"all interleavings with <= 2 preemptions of `go stager.Recover()` (as started by serverApp.init) against a request thread that performs handleValidate's readiness test and then delivers a part")
+}
+
+// ---------------------------------------------------------------- free-running -race pass (diagnostic)
+
+// TestSchedRace runs the bodies of all E-SCHED scenarios without scheduling control; the driver
+// builds this test with -race (`./check race`). It decides no property: it covers the blind spot
+// of the cooperative scheduler (accesses that no lock orders).
+func TestSchedRace(t *testing.T) {
+	rep := vh.NewReport("race", "free-running -race pass over the E-SCHED scenario bodies (diagnostic)")
+	defer rep.Write()
+	n := 40
+	for _, sc := range []*vh.SchedScenario{
+		scenarioTwoParts(false, 0), scenarioTwoParts(true, 0), scenarioTwoFiles(false, 0), scenarioTwoFiles(true, 0),
+		scenarioNewVersion(0), scenarioCleanVsTransfer(false, 0), scenarioCleanVsTransfer(true, 0), scenarioRecoveryWindow(0),
+	} {
+		vh.FreeRunSched(t, rep, sc, n)
+	}
+	rep.Bound = fmt.Sprintf("%d free-running executions of each E-SCHED scenario body under the race detector", n)
 }
